@@ -396,6 +396,14 @@ def datatypeEl (x : ADKey) : DatatypeEl :=
     kind := x.2
     longName := (dtOf x.1).bind (fun t => nonEmpty t.longName)
     values := match x.1 with
+      | some d => if d.isEnum && x.2 == .enumeration then some ((((dtOf x.1).map (·.values)).getD []).map enumValueEl) else none
+      | none => none }
+
+/-- the test before the repair: `SPECIFIED-VALUES` for every `AttributeDefinitionEnumeration`, also when the
+attribute (and hence the datatype element) is of another kind -/
+def datatypeElOld (x : ADKey) : DatatypeEl :=
+  { datatypeEl x with
+    values := match x.1 with
       | some d => if d.isEnum then some ((((dtOf x.1).map (·.values)).getD []).map enumValueEl) else none
       | none => none }
 
@@ -562,7 +570,7 @@ deriving DecidableEq, Repr
 type is a plain `DataTypeDefinition` (which has no `values`) -/
 def dtAttrErr (x : ADKey) : Bool :=
   match x.1 with
-  | some d => d.isEnum && (match d.dataType with | some t => !t.isEnum | none => false)
+  | some d => d.isEnum && x.2 == .enumeration && (match d.dataType with | some t => !t.isEnum | none => false)
   | none => false
 
 /-- `_build_spec_object_types`, `if attr_def.type == "ENUMERATION"`: the assertion for a missing
@@ -648,6 +656,15 @@ an `AttributeDefinitionEnumeration`, and the chosen values belong to its data ty
 def Typed (m : Module) : Prop :=
   ∀ r ∈ m.dfs, ∀ a ∈ r.attrs, ∀ vs d, a.value = .enum vs → a.defn = some d →
     d.isEnum = true ∧ ∀ v ∈ vs, ∃ dt, d.dataType = some dt ∧ v ∈ dt.values.map (·.uuid)
+
+/-- the (upper-cased) uuids of the `ENUM-VALUE` elements of the document -/
+def emittedEnumValues (m : Module) : List Str :=
+  (customDatatypes m).flatMap (fun d => (d.values.getD []).map (·.uuid))
+
+/-- every enumeration choice of every attribute is a value of a data type the exporter emits with its
+values (what `Typed` is needed for, and nothing more) -/
+def EnumRefsCovered (m : Module) : Prop :=
+  ∀ r ∈ m.dfs, ∀ a ∈ r.attrs, ∀ u ∈ a.value.enumRefs, u ∈ emittedEnumValues m
 
 /-- the (upper-cased) uuids of the elements identified as `_<UUID>`, in document order before sorting:
 the model, the enumeration values of the emitted data types, the requirement types in use, the module
